@@ -289,7 +289,13 @@ def build_generic(sc, sid, container_fn, d_extra=()):
         pkgs[0]["files"] += gofiles
     else:
         # the first file of the using package imports only "unsafe": the first import of the package carries no annotations
-        gofiles.insert(0, {"name": "u/a0_sizes.go", "src": 'package u\n\nimport "unsafe"\n\nvar _ = unsafe.Sizeof(0)\n'})
+        if sum(map(ord, sid)) % 3 == 0:
+            # every third program: this first file also imports another package that is *named* d (m/o2/d, no annotations): two files of
+            # the package bind the same local name to different packages
+            gofiles.insert(0, {"name": "u/a0_sizes.go", "src": 'package u\n\nimport (\n\t"unsafe"\n\n\t"m/o2/d"\n)\n\nvar _ = unsafe.Sizeof(0)\n\nvar _ d.Plain\n'})
+            pkgs.append({"path": "m/o2/d", "name": "d", "files": [{"name": "o2/d/d.go", "src": "package d\n\n// Plain has no annotations.\ntype Plain struct{ X int }\n"}]})
+        else:
+            gofiles.insert(0, {"name": "u/a0_sizes.go", "src": 'package u\n\nimport "unsafe"\n\nvar _ = unsafe.Sizeof(0)\n'})
         if sum(map(ord, sid)) % 2 == 0:
             # every other program: the using package has an in-package test file without annotations or violations
             # (go vet analyses such a package only as its test variant)
